@@ -30,7 +30,19 @@ var envValues = map[string]string{"A": "a-val", "B": "$A", "C": "$$A and ${HOME}
 
 type tstats struct{ refs, escapes, failing int }
 
+// whole strings that are exactly one reference, or exactly the value / the text another one expands
+// to: with these among the keys of one mapping, the expansion of one key can equal the not yet
+// expanded text of another (renaming collisions), and values equal raw references
+var pureRefs = []string{"$B", "$A", "${B}", "${A}", "$C", "$HOME", "a-val", "/home/u", "$$A and ${HOME}", "$X_1"}
+
 func template(t *rapid.T, label string, st *tstats) string {
+	if rapid.IntRange(0, 9).Draw(t, label+"pure") == 4 {
+		s := rapid.SampledFrom(pureRefs).Draw(t, label+"pureref")
+		if strings.Contains(s, "$") {
+			st.refs++
+		}
+		return s
+	}
 	n := rapid.IntRange(0, 4).Draw(t, label+"n")
 	var b strings.Builder
 	for i := 0; i < n; i++ {
